@@ -3,7 +3,8 @@ from .. import gen, oracle
 from ..fcheck import FCheck
 from ..oracle import Finding
 
-ALIASES = ["dot-slash", "dotdot", "own-dir-dot", "symlink", "hardlink", "T-self-dir", "hardlink-in-destdir", "symlink-in-destdir", "abs-vs-rel"]
+ALIASES = ["dot-slash", "dotdot", "own-dir-dot", "symlink", "hardlink", "T-self-dir", "hardlink-in-destdir", "symlink-in-destdir", "abs-vs-rel",
+           "special-dot-slash", "special-own-dir", "special-hardlink", "symlink-source-dot-slash"]
 
 
 class C03(FCheck):
@@ -59,6 +60,19 @@ class C03(FCheck):
                 ops.append(gen.d_op("dst"))
                 ops.append(gen.l_op("dst/f", "../f"))
                 srcs, dest = ["f"], "dst"
+            elif alias == "special-dot-slash":
+                ops.append(gen.n_op("node", r.choice(["fifo", "sock", "chr"]), 3, 4, 0o644))
+                srcs, dest = ["node"], "./node"
+            elif alias == "special-own-dir":
+                ops.append(gen.n_op("d/node", r.choice(["fifo", "sock"]), 0, 0, 0o600))
+                srcs, dest = ["d/node"], "./d"
+            elif alias == "special-hardlink":
+                ops.append(gen.n_op("node", "fifo", 0, 0, 0o644))
+                ops.append({"op": "hardlink", "p": "node2", "to": "node"})
+                srcs, dest = ["node"], "node2"
+            elif alias == "symlink-source-dot-slash":
+                ops.append(gen.l_op("sl", "f"))
+                srcs, dest = ["sl"], "./sl"
             else:
                 srcs, dest = ["f"], "$ROOT/f"
             if r.random() < 0.3:
